@@ -33,11 +33,18 @@ def alpha(d):
 
 
 # ------------------------------------------------------------------ callee forms (functional results on Atts values)
+def _enc(k, v):
+    """attribute value -> its Atts encoding (styles: 1 = False, 2 = True; colours: the SGR number)"""
+    if isinstance(v, bool):
+        return z3.IntVal(2 if v else 1)
+    return v
+
+
 def _as_atts(x):
     if z3.is_expr(x):
         return x
     if isinstance(x, dict):
-        return alpha(x)
+        return alpha({k: _enc(k, v) for k, v in x.items()})
     raise TypeError("attribute dict expected")
 
 
@@ -108,7 +115,7 @@ def _runs(x):
 
 def _cwna_ensures(a, r):
     xs, ys = _runs(a.self), _runs(r)
-    A = a.attributes
+    A = _as_atts(a.attributes)
     return [("post.same_number_of_runs", length(ys) == length(xs)),
             ("post.every_run", lambda i: Implies(And(i >= 0, i < length(xs)),
                                                  And(T.ChunkS.s(ys[i]) == T.ChunkS.s(xs[i]),
@@ -116,7 +123,7 @@ def _cwna_ensures(a, r):
 
 
 copy_with_new_atts = Contract(
-    M + "FmtStr.copy_with_new_atts", "C14", ["self", "attributes"], kind="method",
+    M + "FmtStr.copy_with_new_atts", "C14", ["self", "**attributes"], kind="method",
     shapes=[Shape("any", dict(self=FmtT(), attributes=AttsT()))],
     ensures=_cwna_ensures, result=FmtT())
 
